@@ -31,6 +31,8 @@ def scenarios(tier, seed):
                     tmin = 0.18          # a start time that is not exactly representable: tmin+1+1+... and tmin+k differ in the last bit
                 if disc:
                     tmax = None if kind == "SIR" else tmin + 4
+                    if kind == "SIR" and s % 2 == 1 and tmin == int(tmin):
+                        tmax = tmin + 2      # a horizon on the step grid that many runs reach with somebody still infectious
                 else:
                     tmax = None if kind == "SIR" else tmin + 3.5
                 out.append({"sim": sim, "n": n, "edges": edges, "weights": None, "tau": tau, "gamma": gamma,
